@@ -217,7 +217,7 @@ RE_UNI_TAG = re.compile(r'<[\w\-:]*[^\x00-\x7f]')
 def outside_model(cs):
     abbr, cfg, meta = cs
     t = cfg.get('text')
-    texts = [abbr] + ([t] if isinstance(t, str) else list(t) if isinstance(t, list) else [])
+    texts = [abbr, g.unescape(abbr)] + ([t] if isinstance(t, str) else list(t) if isinstance(t, list) else [])
     return any(RE_UNI_TAG.search(x) for x in texts)
 
 
